@@ -83,3 +83,18 @@ def trace_v1(v, acc, recs, what):
     acc.traces += sum(1 for r in lines if r.get("ev") == "new") or 1
     acc.evaluations += sum(1 for r in lines if r.get("ev") in ("mm", "nm", "fpm", "add"))
     return lines
+
+
+def library_panic(v, txt, where):
+    """A panic raised inside the library (first frame of the panicking goroutine that is not the runtime's lies in the package's own
+    sources, not in a driver file zz_verif_*) while it is used concurrently is the violation itself; a panic of the driver is not."""
+    m = re.search(r"^panic: [^\n]*", txt, re.M)
+    if not m:
+        return False
+    tail = txt[m.start():]
+    frames = re.findall(r"^\t(/\S+\.go):\d+", tail, re.M)
+    own = [f for f in frames if "/runtime/" not in f and "/testing/" not in f and "/src/sync/" not in f]
+    if own and "zz_verif" not in own[0] and own[0].startswith(os.path.realpath(vlib.REPO)):
+        v.fail("runtime-panic:" + os.path.basename(own[0]), {"what": m.group(0), "where": where, "stack": tail[:2500]})
+        return True
+    return False
